@@ -246,6 +246,13 @@ def parse (cfg : Cfg) (s2 : Nat) (str : List UInt8) : Option (Except ParseError 
 /-- rs: `PartialEq` -/
 def eq (a b : DH) : Bool := FH.eq a.norm b.norm && a.rle1 == b.rle1 && a.rle2 == b.rle2
 
+/-- the harness' observation of the reverse-normalization data: the object is `==` the dual hash
+    freshly built from its own raw form -/
+def freshEq (s2 : Nat) (a : DH) : Bool :=
+  match fromRawForm s2 (toRawForm s2 a) with
+  | some f => eq f a
+  | none => false
+
 /-- rs: `Hash` -/
 def hashWrites (a : DH) : List (List UInt8) := FH.hashWrites a.norm ++ [a.rle1, a.rle2]
 
